@@ -116,15 +116,14 @@ def startPts (n : Nat) (t0 t1 : List TRow) : Option (Option (List c19_Pt × List
   | _ :: _, _ :: _ => pure (some (q0, q1))
   | _, _ => pure none                                                    -- `return`
 
-/-- `TwoFingerIntersector.addTraces(trace0, trace1)`; `none` = an exception
-    (IndexError on an empty first trace). -/
+/-- `TwoFingerIntersector.addTraces(trace0, trace1)`: the header is thrown away on the first
+    call that receives a non-empty `trace0` (`if not self.started and trace0`).  `none` only
+    for a header row in data position (outside the model). -/
 def tfAdd (s : IState) (t0 t1 : List TRow) : Option IState := do
-  let (s, t0, t1) ←
-    if !s.started then
-      match t0 with
-      | [] => none                                                   -- `trace0[0]`
-      | h :: r => some ({ s with started := true, numRanks := (h.len - 1) / 2 }, r, t1.drop 1)
-    else some (s, t0, t1)
+  let (s, t0, t1) :=
+    match s.started, t0 with
+    | false, h :: r => ({ s with started := true, numRanks := (h.len - 1) / 2 }, r, t1.drop 1)
+    | _, _ => (s, t0, t1)
   match ← startPts s.numRanks t0 t1 with
   | none => pure s
   | some (q0, q1) => pure { s with count := s.count + tfLoop q0 q1 }
@@ -141,7 +140,8 @@ def saAdd (s : IState) (t0 t1 : List TRow) : Option IState := do
 
 /-- `LeaderFollowerIntersector.addTraces(trace)` -/
 def lfAdd (s : IState) (t : List TRow) : IState :=
-  if !s.started then { s with started := true, count := s.count + ((t.length : Int) - 1) }
+  if !s.started && !t.isEmpty then                   -- `if not self.started and traces[0]`
+    { s with started := true, count := s.count + ((t.length : Int) - 1) }
   else { s with count := s.count + t.length }
 
 /-- successive `addTraces` calls on a fresh object, then `getNumIntersects()` -/
